@@ -461,7 +461,7 @@ def extract_item(src, start_rx):
 def run_verus_unit(path, scratch, logdir):
     """Template lines:
          //@ extract NAME: <file> :: <start regex>     -> defines ${NAME} = extracted item text
-         //@ rewrite NAME: <regex> => <replacement>    -> documented mechanical rewrite applied to it
+         //@ rewrite NAME: <regex> ==>> <replacement>    -> documented mechanical rewrite applied to it
        and `//@@ NAME` lines in the body are replaced by the text."""
     tpl = open(path).read()
     name = os.path.basename(path)[:-3]
@@ -475,7 +475,7 @@ def run_verus_unit(path, scratch, logdir):
             if it is None:
                 lost.append(f"{name}: cannot extract {n} from {f} (/{rx}/)")
             items[n] = it or ""
-        m = re.match(r"\s*//@ rewrite (\w+):\s*(.*?)\s*=>\s*(.*)$", line)
+        m = re.match(r"\s*//@ rewrite (\w+):\s*(.*?)\s*==>>\s?(.*)$", line)
         if m:
             n, rx, rep = m.groups()
             before = items.get(n, "")
